@@ -525,8 +525,9 @@ def run_call(px, shape: str, cls: str, msg: str, argc: int, site: str, ops: list
     return {"events": ev, "errors": errors, "others": others}
 
 
-def with_watchdog(fn, timeout: float):
-    """Run fn in a thread; returns (result | None, hung)."""
+def with_watchdog(fn, timeout: float, server_thread=None):
+    """Run fn in a thread; returns (result | None, hung).  With server_thread: once the serve loop has ended while the
+    client is still waiting, nothing more will ever be written -- the client is given one more second, not `timeout`."""
     box: list = []
 
     def body():
@@ -537,7 +538,17 @@ def with_watchdog(fn, timeout: float):
 
     th = threading.Thread(target=body, daemon=True)
     th.start()
-    th.join(timeout)
+    if server_thread is None:
+        th.join(timeout)
+    else:
+        import time
+
+        end = time.monotonic() + timeout
+        while th.is_alive() and time.monotonic() < end:
+            th.join(0.05)
+            if th.is_alive() and not server_thread.is_alive():
+                th.join(1.0)
+                break
     if th.is_alive():
         return None, True
     kind, val = box[0]
